@@ -86,6 +86,14 @@ def gen_c09_page(rng, refs=False):
 
 
 def gen_dir(rng):
+    d = _gen_dir(rng)
+    # in every directory: two pages of which one name is a proper prefix of the other, followed by a digit
+    d.setdefault("log.zo", gen_c09_page(rng))
+    d.setdefault("log2.zo", gen_c09_page(rng))
+    return d
+
+
+def _gen_dir(rng):
     return {name: gen_c09_page(rng)
             for name in rng.sample(["alpha.zo", "beta.zo", "sub/gamma.zo", "z9.zo", "a.zo", "a.zo.d/x.zo", "todo.zo", "tod.zo", "sub/quiz.zo",
                                     "memo.zo", "log.zo", "log2.zo", "logA.zo"], rng.randint(2, 4))}
@@ -178,12 +186,10 @@ def spec_checks(q, gs, os_, sel_model, notes, out):
             order = sorted(range(len(notes)), key=lambda i: (notes[i][0], notes[i][1]))
             exp_text = "\n".join(want[i] for i in order)
             if got_text.strip() != exp_text.strip():
-                digits = {}
-                trig = None
-                for n in notes:
-                    digits.setdefault(n[0], set()).add(len(str(n[1])))
-                if any(len(v) > 1 for v in digits.values()):
-                    trig = "order_none_lexicographic"
+                # the known finding is EXACTLY "the notes are sorted by the text 'path::line'": it explains the output only
+                # when the output is that order
+                known_order = sorted(range(len(notes)), key=lambda i: "%s::%d" % (notes[i][0], notes[i][1]))
+                trig = "order_none_lexicographic" if got_text.strip() == "\n".join(want[i] for i in known_order).strip() else None
                 probs.append(("O none = page path then line number", got_text[:200], trig))
     # group headers: every note stands under headers whose labels are its own values (file and tag dimensions; the i-th
     # dimension uses the i-th ruler; no header of a level where the note's value is empty)
@@ -201,11 +207,15 @@ def spec_checks(q, gs, os_, sel_model, notes, out):
                 # the titles of the enclosing sections, outermost first; the untitled top section contributes nothing
                 return " | ".join(t for t in n[12] if t)
             return None
-        byzid = {}
+        byzid, dup = {}, set()
         for n in notes:
             m = re.match(r"(?:\d{6} )?(\d{6}#\w{2,3})(?: |$)", n[2].strip())
             if m:
+                if m.group(1) in byzid:
+                    dup.add(m.group(1))       # the generator may give two notes of different pages the same ZID: not identifiable
                 byzid[m.group(1)] = n
+        for z in dup:
+            del byzid[z]
         cur = [None] * 4
         for line in (out.split("\n") if out else []):
             lvl = next((i for i, r in enumerate(rul) if line.startswith(r + " ") or line == r), None)
